@@ -841,6 +841,40 @@ def _np_stack_frames(stock):
     return model
 
 
+def install():
+    from . import narr
+
+    for t in (np.float64, np.float32, np.float16):
+        EXTRA_MODELS[t] = _np_scalar_ctor(t)
+    EXTRA_MODELS[np.dtype] = _np_dtype
+    EXTRA_MODELS[np.moveaxis] = _np_moveaxis
+    EXTRA_MODELS[np.expand_dims] = _np_expand_dims
+    EXTRA_MODELS[np.argsort] = _np_argsort
+    EXTRA_MODELS[np.floor] = _floor_ceil(True)
+    EXTRA_MODELS[np.ceil] = _floor_ceil(False)
+    EXTRA_MODELS[np.min] = _col_extreme(True, narr.NP_MODELS[np.min])
+    EXTRA_MODELS[np.max] = _col_extreme(False, narr.NP_MODELS[np.max])
+    EXTRA_MODELS[int] = _b_int_trunc
+    EXTRA_METHODS[(SArr, "reshape")] = _sarr_reshape
+    _install_io()
+    try:
+        import tifffile
+
+        EXTRA_MODELS[tifffile.imwrite] = _imwrite
+        EXTRA_MODELS[tifffile.TiffFile] = _tifffile_open
+    except ImportError:  # pragma: no cover
+        pass
+    try:
+        import sdflit
+
+        EXTRA_MODELS[sdflit.Sphere] = _sphere
+        EXTRA_MODELS[sdflit.RoundCone] = _round_cone
+        EXTRA_MODELS[sdflit.SDFObject] = _sdf_object
+        EXTRA_MODELS[sdflit.RangeSampler] = _range_sampler
+    except ImportError:  # pragma: no cover
+        pass
+
+
 def _install_io():
     import os
 
